@@ -50,6 +50,9 @@ def run(ctx):
     for t in range(n):
         kind = kinds[t % len(kinds)]
         table = genatoms.gen_table(rng, nmodels=1, charges=False)
+        if kind == "bignumber" and t % 2:
+            for r in table:
+                r["resSeq"] = 9999 + (r["resSeq"] % 3) if r["resSeq"] > 0 else r["resSeq"]     # the boundary: 9999 fits, 10000 does not
         if "longchain" in kind:
             for r in table:
                 r["chainID"] = r["chainID"] + rng.choice(["A", "x", "-2"])
@@ -72,7 +75,11 @@ def run(ctx):
         text = genatoms.emit_pdb(table) if fmt == "PDB" else genatoms.emit_cif(table)
         df = parse_pdb_atoms(text) if fmt == "PDB" else parse_cif_atoms(text)
         before = canon_rows(df)
-        fits = bool(can_write_pdb(df))
+        says_fits = bool(can_write_pdb(df))
+        # the property's own notion, from the canonical rows (a PDB-derived table fits by construction)
+        fits = fmt == "PDB" or all((r[1] is None or r[1] <= 99999) and len(r[5]) <= 1 and (r[6] is None or r[6] <= 9999) for r in before)
+        if says_fits != fits:
+            ctx.violation("can_write_pdb misjudges whether the table satisfies the PDB limits", {"case": {"kind": kind, "format": fmt, "table": text[:3000]}, "can_write_pdb": says_fits, "limits_satisfied": fits})
         ctx.count(text, not fits, kind)
         case = {"kind": kind, "format": fmt, "table": text if len(text) < 6000 else text[:6000] + "..."}
         try:
